@@ -315,6 +315,93 @@ theorem lookup12_outside (t : Buf) (o : Nat) (h : check12 t (some o) = .ok true)
   simp only [hn, bind, Except.bind]
   exact lookup12Loop_miss t o u n hsz hout _ _
 
+/-! ## the binary search is the search the OpenType specification describes -/
+
+/-- "search for the first endCode that is greater than or equal to the character code" -/
+def firstEnd (en : Nat → Nat) (N u : Nat) : Option Nat := (List.range N).find? fun i => decide (u ≤ en i)
+
+theorem firstEnd_some {en : Nat → Nat} {N u k : Nat} (h : firstEnd en N u = some k) : k < N ∧ u ≤ en k ∧ ∀ j, j < k → en j < u := by
+  unfold firstEnd at h
+  rw [List.find?_eq_some_iff_append] at h
+  obtain ⟨hk, as, bs, hab, hall⟩ := h
+  have hk' : u ≤ en k := by simpa using hk
+  have hlen : as.length = k := by
+    have h1 : (List.range N)[as.length]? = some k := by rw [hab]; simp
+    rw [List.getElem?_range] at h1
+    · cases h1; rfl
+    · have : as.length < (List.range N).length := by rw [hab]; simp
+      simpa using this
+  have hkN : k < N := by
+    have : as.length < (List.range N).length := by rw [hab]; simp
+    rw [List.length_range] at this; omega
+  refine ⟨hkN, hk', fun j hj => ?_⟩
+  have hj : (List.range N)[j]? = some j := List.getElem?_range (by omega)
+  rw [hab, List.getElem?_append_left (by omega)] at hj
+  have hmem : j ∈ as := List.mem_of_getElem? hj
+  have := hall j hmem
+  simp at this
+  omega
+
+theorem firstEnd_none {en : Nat → Nat} {N u : Nat} (h : firstEnd en N u = none) : ∀ i, i < N → en i < u := by
+  unfold firstEnd at h
+  rw [List.find?_eq_none] at h
+  intro i hi
+  have := h i (List.mem_range.2 hi)
+  simp at this
+  omega
+
+/-- the format 4 look-up as the specification words it: the first segment whose end code is not below the code point decides – its
+start code, delta and range offset give the glyph, and a code point before its start is unmapped -/
+def spec4 (t : Buf) (o : Nat) (u : Nat) : Except Fault Nat :=
+  match firstEnd (en4 t o) (g16 t (o + 6) / 2) u with
+  | some k => seg4 t o (g16 t (o + 6) / 2) u k
+  | none => .ok 0
+
+/-- **the binary search of `CmapSubtable4Lookup` finds the segment the specification's linear search finds** -/
+theorem lookup4_is_spec (t : Buf) (o : Nat) (h : check4 t (some o) = .ok true)
+    (hS : Sorted (st4 t o (g16 t (o + 6) / 2)) (en4 t o) (g16 t (o + 6) / 2)) (u : Nat) : lookup4 t o u 0 = spec4 t o u := by
+  obtain ⟨x, len, hx, hlen, hn0, hl, hsz⟩ := check4_facts t o h
+  have hx' : g16 t (o + 6) = x := by unfold g16; rw [hx]
+  rw [hx'] at hS
+  unfold spec4
+  rw [hx']
+  cases hf : firstEnd (en4 t o) (x / 2) u with
+  | some k =>
+    obtain ⟨hk, h2, h3⟩ := firstEnd_some hf
+    simp only []
+    unfold lookup4
+    simp only [hx, bind, Except.bind, pure, Except.pure]
+    have : pick4 t o (x / 2) u 0 = .ok (some k) := by
+      unfold pick4
+      rw [if_neg (by omega)]
+      exact search4_finds t o u (x / 2) k (by omega) (fun i j hij hj => sorted_en_mono hS i j hij hj) h3 h2 _ 0 (x / 2) (by omega) (by omega) (by omega) (by omega)
+    rw [this]
+  | none =>
+    have hall := firstEnd_none hf
+    simp only []
+    unfold lookup4
+    simp only [hx, bind, Except.bind, pure, Except.pure]
+    obtain ⟨r, hr, hrlt⟩ : ∃ r, pick4 t o (x / 2) u 0 = .ok r ∧ ∀ m, r = some m → m < x / 2 := by
+      unfold pick4
+      rw [if_neg (by omega)]
+      exact search4_ok t o u (x / 2) (by omega) _ 0 (x / 2) (by omega)
+    rw [hr]
+    cases r with
+    | none => rfl
+    | some mid =>
+      have hm := hrlt mid rfl
+      simp only []
+      unfold seg4
+      simp only [bind, Except.bind, pure, Except.pure]
+      have hce := be16_g16 t (o + 14 + 2 * mid) (by omega)
+      have hcs := be16_g16 t (o + 14 + 2 * (mid + x / 2 + 1)) (by omega)
+      simp only [hce, hcs]
+      rw [if_neg]
+      intro hc
+      have := hall mid hm
+      unfold en4 at this
+      omega
+
 /-! ## the two passes of `CachedCmap::CachedCmap` -/
 
 /-- what the direct look-ups answer -/
